@@ -21,6 +21,7 @@ const crashSDL = `
 enum Color { RED GREEN }
 input In { a: Int  b: [String!]  c: In  d: Color = RED  e: Float  f: Boolean! = true }
 input GIn { name: String  tags: [String]  nums: [Int]  big: [Int64!]  flags: [Boolean]  sub: GIn  subs: [GIn]  when: Time  col: Color }
+input GIn2 { name: String  ghost: Int  lost: [Int]  deep: GIn2 }
 interface Named { str: String }
 union Any = Query | Other
 type Other implements Named { str: String num: Int }
@@ -52,6 +53,7 @@ type Query implements Named {
   strays: [Lister]
   ginp(in: GIn, ins: [GIn]): String
   pairs: [Pair]
+  ginp2(in: GIn2, ins: [GIn2]): String
 }
 type Pair { str: String num: Int sub: Pair }
 interface Lister { items(first: Int): String sub: Lister }
@@ -142,6 +144,15 @@ type GIn struct {
 	When  time.Time
 	Col   ggql.Symbol
 }
+
+// GIn2 is bound to the input type GIn2 although it has no member for some of its fields (the
+// application's struct lags behind the schema).
+type GIn2 struct {
+	Name string
+	Deep *GIn2
+}
+
+func (q *RQ) Ginp2(in *GIn2, ins []interface{}) string { return fmt.Sprint(in != nil, len(ins)) }
 
 func (q *RQ) Ginp(in *GIn, ins []interface{}) string {
 	n := len(ins)
@@ -300,6 +311,7 @@ func NewRoots() (map[string]*ggql.Root, error) {
 	_ = r.RegisterType(&RLA{}, "LA")
 	_ = r.RegisterType(&RLB{}, "LB")
 	_ = r.RegisterType(&GIn{}, "GIn")
+	_ = r.RegisterType(&GIn2{}, "GIn2")
 	roots["reflection"] = r
 	r = ggql.NewRoot(&resNode{})
 	if err := r.ParseString(crashSDL); err != nil {
